@@ -157,8 +157,11 @@ def c09(tier, seed, work):
                 dict(name="c09-sess2", insess=True, cmds="CmdsAR", maxcalls=3, maxatt=2, kinds="KindsRetry", auth=a2, integ=i2),
                 dict(name="c09-nosess", insess=False, cmds="CmdsAB", maxcalls=2, maxatt=3, kinds="KindsRetryNS", auth=1, integ=1)]
         mc = [("MCConsole", "MC_Console_sess.cfg"), ("MCConsole", "MC_Console_nosess.cfg")]
-    return console_check("C09", tier, seed, work, mc, fams, COMMON_ASSUME,
-                         hs_fams=[dict(name="c09-hs-retry", family="retry", tier=tier, seed=seed)])
+    res = console_check("C09", tier, seed, work, mc, fams, COMMON_ASSUME,
+                        hs_fams=[dict(name="c09-hs-retry", family="retry", tier=tier, seed=seed)])
+    return add_walk(res, work, [dict(name="c09-api", module="MCGenApi", cfg_tpl="Gen_Cipher.cfg.tpl", family="api", tier=tier, seed=seed)],
+                    "Every library command and convenience method in a session, including requests the library refuses to encode "
+                    "(nothing transmitted): the sequence numbers of the datagrams the BMC receives continue without a gap.")
 
 
 def c10(tier, seed, work):
